@@ -577,6 +577,18 @@ func c15Scenarios(tier string) []*world.Scenario {
 		// the ticker adopts a new topology on its next round: the clock only moves on after the update arrived
 		sc.TickGate = func(w *world.World) bool { return w.FaultsDone() }
 	}
+	// the node is lost for good: its connection goes away AND it refuses every new one; requests routed to it later are
+	// answered with an error and the proxy keeps serving the other nodes
+	for _, kind := range []string{"backend-close", "backend-rst"} {
+		for _, afterW := range []int{0, 1} {
+			cs := ClientOf(pipes["get"], true)
+			follow(&cs, keysA[5])
+			follow(&cs, keysC[2])
+			add(fmt.Sprintf("get/%s/afterW%d/node-gone-for-good", kind, afterW), "node-lost-completely", "inflight-lost-on-backend-close",
+				&world.Scenario{Nodes: T3m(), Bound: b, Clients: []world.ClientSpec{cs},
+					Faults: []world.Fault{{Kind: "node-down", Addr: AddrA}, {Kind: kind, Addr: AddrA, AfterW: afterW}}})
+		}
+	}
 	return out
 }
 
